@@ -253,3 +253,14 @@ package core
 //@   requires bp.log != nil && bp.opts != nil && bp.priv != nil && bp.priv.Public != nil
 //@   call createDBStore#0: assert [C10:nothing-is-stored-before-the-peer-info-matched-the-pinned-chain-hash] bytesEq(chain.infoHashOf(info), hash) && info != nil
 //@   call NewSyncManager#0: assert [C10:the-syncer-verifies-against-the-pinned-info] arg1 != nil && arg1.Info == info && bytesEq(chain.infoHashOf(info), hash)
+
+// ---- C11: the public randomness stream runs the same routine as peer sync, on this chain's store, from the requested round
+//@ func (*proxyRequest).GetFromRound(p) (r)
+//@   props C11
+//@   modifies nothing
+//@   ensures [C11:public-stream-starts-at-the-requested-round] r == ite(p.PublicRandRequest == nil, 0, p.PublicRandRequest.Round)
+
+//@ func (*BeaconProcess).PublicRandStream(bp, req, stream) (err)
+//@   props C11
+//@   requires [C11] bp.log != nil && req != nil
+//@   call SyncChain#0: assert [C11:public-stream-uses-this-chains-store-the-request-and-the-clients-stream] typeis(arg2, "*proxyRequest") && as(arg2, "*proxyRequest").PublicRandRequest == req && typeis(arg3, "*proxyStream") && as(arg3, "*proxyStream").Public_PublicRandStreamServer == stream && typeis(arg1, "*github.com/drand/drand/v2/internal/chain/beacon.chainStore") && as(arg1, "*github.com/drand/drand/v2/internal/chain/beacon.chainStore") == bp.beacon.chain
